@@ -24,7 +24,12 @@ RULE = ("instants 1950-2050 uniform plus solstices/equinoxes/year boundaries x l
         "azimuth, distance, obliquity, mean anomaly) model vs astronomy.py at 1e-11; oracle: the Almanac low-precision sun "
         "(independent Python, own GMST) within 0.03 deg / 0.0015 AU, mutual consistency 1e-9, sub-solar point and antipode; "
         "arrays: six unrelated instants, and clusters of six instants spanning 0 s ... 40 d in sorted / reversed / shuffled / "
-        "out-and-back order, with scalar, 1-d and 2-d coordinates, every element against the Almanac; "
+        "out-and-back order, with scalar, 1-d and 2-d coordinates, every element against the Almanac; arrays of 3-9 instants "
+        "spanning 1 min ... 1 d (some 3 d) PLACED to straddle the instants, found from the Almanac reference for random years "
+        "(days) of 1950-2050, where a sun quantity wraps or changes regime: RA = +-180 deg (September equinox), RA = ecliptic "
+        "longitude = 0/360 (March equinox), declination extrema / RA = +-90 deg (solstices), mean anomaly 0 and 180 deg, mean "
+        "longitude 0/360, GMST through 0, hour angle 0 and +-180 deg (local noon / midnight), year boundaries, midnight UTC, "
+        "J2000.0; "
         "call orders: fresh child interpreters whose FIRST sun query (each of the six functions in turn) passes a date-only "
         "value (datetime.date, datetime64[D,W,M,Y], arrays of them: midnight UTC of the day / first day), a coarse "
         "datetime64[h,m,s], an ordinary instant or an array, followed by 8-13 instants in every representation (datetime, "
@@ -234,8 +239,125 @@ def oracle(ctx):
         lons = [lon] + [ctx.rng.uniform(-360.0, 360.0) for _ in range(m - 1)]
         lats = [lat] + [ctx.rng.uniform(-90.0, 90.0) for _ in range(m - 1)]
         check_arrays(ctx, ts, lons, lats, kind, astronomy)
+    # time arrays PLACED around the instants where a sun quantity wraps or changes regime (found from the Almanac reference)
+    event_clusters(ctx, astronomy)
     # fresh interpreters: what the process asks FIRST (a date-only value, a coarse unit, an array ...) must not matter
     order_oracle(ctx)
+
+
+# ---------------------------------------------------------------- time arrays around the instants where a quantity wraps
+def _alm_angles(t):
+    """Mean longitude, mean anomaly, ecliptic longitude, right ascension of the Almanac low-precision sun (radians)."""
+    n = float(c12.exact_jd(t) - 2451545)
+    L = math.radians((280.460 + 0.9856474 * n) % 360.0)
+    g = math.radians((357.528 + 0.9856003 * n) % 360.0)
+    lam = math.radians((math.degrees(L) + 1.915 * math.sin(g) + 0.020 * math.sin(2 * g)) % 360.0)
+    eps = math.radians(23.439 - 0.0000004 * n)
+    return {"L": L, "g": g, "lam": lam, "ra": math.atan2(math.cos(eps) * math.sin(lam), math.cos(lam))}
+
+
+def _wrap(x):
+    return (x + math.pi) % (2 * math.pi) - math.pi
+
+
+def find_instant(angle, t_a, t_b, step_s):
+    """The first instant in [t_a, t_b] at which the increasing angle(t) passes a multiple of 2 pi (scan with step_s, then
+    bisection to the microsecond).  None when there is none."""
+    t, s = t_a, _wrap(angle(t_a))
+    while t < t_b:
+        t2 = min(t + dt.timedelta(seconds=step_s), t_b)
+        s2 = _wrap(angle(t2))
+        if s < 0.0 <= s2 and s2 - s < math.pi:
+            lo, hi = t, t2
+            while hi - lo > dt.timedelta(microseconds=1):
+                mid = lo + (hi - lo) / 2
+                if _wrap(angle(mid)) < 0.0:
+                    lo = mid
+                else:
+                    hi = mid
+            return hi
+        t, s = t2, s2
+    return None
+
+
+# name -> (angle(t, lon_rad) that passes 0 mod 2 pi at the instant, 'year' | 'day': how often it happens)
+EVENTS = {
+    "RA wraps at +-180 deg (September equinox)": (lambda t, lon: _alm_angles(t)["ra"] - math.pi, "year"),
+    "RA and ecliptic longitude pass 0/360 deg (March equinox)": (lambda t, lon: _alm_angles(t)["lam"], "year"),
+    "declination maximum, RA = 90 deg (June solstice)": (lambda t, lon: _alm_angles(t)["lam"] - math.pi / 2, "year"),
+    "declination minimum, RA = -90 deg (December solstice)": (lambda t, lon: _alm_angles(t)["lam"] + math.pi / 2, "year"),
+    "mean anomaly wraps at 0/360 deg (perihelion)": (lambda t, lon: _alm_angles(t)["g"], "year"),
+    "mean anomaly 180 deg (aphelion)": (lambda t, lon: _alm_angles(t)["g"] - math.pi, "year"),
+    "mean longitude wraps at 0/360 deg": (lambda t, lon: _alm_angles(t)["L"], "year"),
+    "GMST wraps through 0": (lambda t, lon: float(c12.iau82_gmst(c12.exact_jd(t))), "day"),
+    "hour angle 0 (local noon)": (lambda t, lon: float(c12.iau82_gmst(c12.exact_jd(t))) + lon - _alm_angles(t)["ra"], "day"),
+    "hour angle wraps at +-180 deg (local midnight)": (
+        lambda t, lon: float(c12.iau82_gmst(c12.exact_jd(t))) + lon - _alm_angles(t)["ra"] - math.pi, "day"),
+}
+FIXED_EVENTS = ["year boundary", "J2000.0 (2000-01-01 12:00)", "midnight UTC"]
+LO_T, HI_T = dt.datetime(1950, 1, 1), dt.datetime(2050, 12, 31, 23, 59, 59)
+
+
+def event_instant(ctx, name, lon_deg):
+    """The instant of the named event in a random year (day) of 1950-2050, from the independent Almanac reference."""
+    r = ctx.rng
+    y = r.randrange(1950, 2051)
+    if name == "year boundary":
+        return dt.datetime(r.randrange(1951, 2051), 1, 1)
+    if name.startswith("J2000.0"):
+        return dt.datetime(2000, 1, 1, 12)
+    if name == "midnight UTC":
+        return dt.datetime(y, 1, 1) + dt.timedelta(days=r.randrange(365))
+    angle, every = EVENTS[name]
+    lon = math.radians(lon_deg)
+    if every == "year":
+        return find_instant(lambda t: angle(t, lon), dt.datetime(y, 1, 1), dt.datetime(y + 1, 1, 1), 20 * 86400.0)
+    t_a = dt.datetime(y, 1, 1) + dt.timedelta(seconds=r.uniform(0, 364 * 86400.0))
+    return find_instant(lambda t: angle(t, lon), t_a, t_a + dt.timedelta(days=1.01), 3 * 3600.0)
+
+
+EVENT_SPANS_S = [60.0, 300.0, 1800.0, 3600.0, 3 * 3600.0, 6 * 3600.0, 12 * 3600.0, 20 * 3600.0, 86399.0, 86400.0]
+
+
+def event_clusters(ctx, astronomy):
+    """Arrays of 3-9 instants spanning minutes to a day (now and then up to three days) that STRADDLE an instant where a sun
+    quantity wraps or changes regime, in sorted / reversed / shuffled / out-and-back order: every element against the Almanac."""
+    r = ctx.rng
+    names = list(EVENTS) + FIXED_EVENTS
+    for rep in range(ctx.size(12, 150)):
+        for name in names:
+            lon, lat = r.uniform(-360.0, 360.0), r.uniform(-90.0, 90.0)
+            te = event_instant(ctx, name, lon)
+            if te is None:
+                continue
+            k = r.random()
+            span = r.choice(EVENT_SPANS_S) if k < 0.6 else math.exp(r.uniform(math.log(60.0), math.log(86400.0))) if k < 0.9 \
+                else r.choice([1.5 * 86400.0, 3 * 86400.0])
+            kind = r.choice(["scalar_coord", "f64", "f64", "f64_2d"])
+            m = r.choice([4, 6, 8]) if kind == "f64_2d" else r.randint(3, 9)
+            inner = [span * i / (m - 1) for i in range(1, m - 1)] if r.random() < 0.5 else sorted(r.uniform(0.0, span) for _ in range(m - 2))
+            offs = [0.0] + inner + [span]
+            # the event lies strictly inside the span; now and then it is one of the elements
+            start = -r.uniform(0.02, 0.98) * span if r.random() < 0.8 else -r.choice(inner)
+            order = r.choice(["sorted", "sorted", "reversed", "shuffled", "out_and_back"])
+            if order == "reversed":
+                offs = offs[::-1]
+            elif order == "shuffled":
+                r.shuffle(offs)
+            elif order == "out_and_back":
+                offs = [offs[0]] + offs[2:] + [offs[0]]          # out to the far end and back to the first instant
+            ts = [te + dt.timedelta(seconds=start + o) for o in offs]
+            if not all(LO_T <= t <= HI_T for t in ts):
+                continue
+            ctx.bump("event_cluster", name)
+            ctx.bump("event_cluster_span", "<=10min" if span <= 600 else "<=3h" if span <= 10800 else "<=1d" if span <= 86400 else ">1d")
+            ctx.distinct(("event", name, te.isoformat(), span))
+            if name.startswith("hour angle"):
+                lons = [lon] * m           # the event belongs to this meridian
+            else:
+                lons = [lon] + [r.uniform(-360.0, 360.0) for _ in range(m - 1)]
+            lats = [lat] + [r.uniform(-90.0, 90.0) for _ in range(m - 1)]
+            check_arrays(ctx, ts, lons, lats, kind, astronomy, extra={"around": name, "event_utc": te.isoformat()})
 
 
 # ---------------------------------------------------------------- call orders in a fresh interpreter
@@ -406,7 +528,7 @@ def _coords(kind, xs):
     return np.array(xs, dtype=np.float64)
 
 
-def check_arrays(ctx, ts, lons, lats, kind, astronomy):
+def check_arrays(ctx, ts, lons, lats, kind, astronomy, extra=None):
     """Array-valued times and coordinates against the Almanac reference, element by element."""
     tarr = np.array([np.datetime64(t) for t in ts])
     if kind == "scalar_coord":
@@ -420,6 +542,7 @@ def check_arrays(ctx, ts, lons, lats, kind, astronomy):
             tarr = tarr.reshape(2, -1)
     tol_deg = TOL_DEG + (2e-3 if kind == "f32" else 0.0)      # float32 coordinates carry 1e-5 deg of their own
     case0 = {"utcs": [t.isoformat() for t in ts], "lons": list(map(float, lons)), "lats": list(map(float, lats)), "kind": kind}
+    case0.update(extra or {})
     n0 = len(ctx.violations)
     ra, dec = astronomy.sun_ra_dec(tarr)
     lam = astronomy.sun_ecliptic_longitude(tarr)
